@@ -278,7 +278,19 @@ def interp_obs(i, rnd, title):
         except BaseException:  # not a clean table (e.g. repeated header lines): reported by C04 as CsvEqualsResult
             csv = None
         # (the file is left in place: a later run with the same title must overwrite it, not inherit from it)
-    return dict(round=rnd, pf=float(i.percent_people_fed), kcals_fed=fl(i.kcals_fed), percent=pf, kcals_eq=keq, csv=csv,
+    # every other series of the result (fat and protein parts, plain arrays): a digest is enough, they are compared for identity
+    import hashlib
+    hs = hashlib.sha256()
+    for name in sorted(vars(i)):
+        o = getattr(i, name)
+        if hasattr(o, "kcals") and hasattr(o, "fat") and hasattr(o, "protein"):
+            for part in (o.kcals, o.fat, o.protein):
+                hs.update(name.encode())
+                hs.update(np.ascontiguousarray(np.asarray(part, dtype=float)).tobytes())
+        elif isinstance(o, np.ndarray) and o.dtype.kind in "fi":
+            hs.update(name.encode())
+            hs.update(np.ascontiguousarray(o.astype(float)).tobytes())
+    return dict(round=rnd, pf=float(i.percent_people_fed), kcals_fed=fl(i.kcals_fed), percent=pf, kcals_eq=keq, csv=csv, all_series_sha=hs.hexdigest(),
                 feed_sum_keq=k("feed_sum_kcals_equivalent"), bio_sum_keq=k("biofuels_sum_kcals_equivalent"),
                 feed_sum=k("feed_sum"), bio_sum=k("biofuels_sum") if hasattr(i, "biofuels_sum") else None)
 
@@ -365,10 +377,13 @@ def run_job(job):
         rec["tb"] = traceback.format_exc()[-1200:]
     finally:
         CAP = None
-    txt = buf.getvalue()
+    rec["wall"] = round(time.time() - t0, 2)
+    return fill_rec(rec, cap, buf.getvalue(), job)
+
+
+def fill_rec(rec, cap, txt, job):
     rec["flags"] = dict(skip2="Skipping round 2" in txt, skip12="Skipped rounds 1 and 2" in txt, patched="cannot run" in txt,
                         banner_feed="ASSERT FAILED" in txt, banner_r3="starving in round 3" in txt)
-    rec["wall"] = round(time.time() - t0, 2)
     rec["solves"] = cap["solves"]
     rec["lps"] = cap["lps"]
     rec["interp"] = cap["interp"]
@@ -400,15 +415,74 @@ def run_job(job):
     return rec
 
 
+def run_yaml_job(job):
+    """one call of the yaml front end (run_scenarios_from_yaml) with several simulations for one country list; one record per
+    simulation.  job["yaml"] = {"NMONTHS": settings-level horizon, "sims": [{"name", "preset", "options"}, ...]}"""
+    global CAP
+    from src.scenarios import run_scenarios_from_yaml as fe
+    from src.scenarios.run_model_no_trade import ScenarioRunnerNoTrade
+
+    install()
+    sims = job["yaml"]["sims"]
+    caps = {}
+    bufs = {}
+    oks = {}
+    config = dict(settings=dict(countries=[job["cc"]], NMONTHS=job["yaml"]["NMONTHS"]),
+                  simulations={sm["name"]: dict(copy.deepcopy(sm["options"]), title="v%d_%s_%s" % (os.getpid(), job["cc"], sm["name"])) for sm in sims})
+    by_title = {v["title"]: k for k, v in config["simulations"].items()}
+    orig = ScenarioRunnerNoTrade.run_model_no_trade
+
+    def w_run(self, *a, **k):
+        global CAP
+        name = by_title.get(k.get("title"))
+        CAP = caps.setdefault(name, dict(herds=[], solves=[], lps=[], interp=[], validators=[]))
+        bufs[name] = io.StringIO()
+        try:
+            with contextlib.redirect_stdout(bufs[name]), contextlib.redirect_stderr(bufs[name]):
+                r = orig(self, *a, **k)
+            oks[name] = (True, None, None)
+            return r
+        except BaseException as e:
+            oks[name] = (False, repr(e)[:300], traceback.format_exc()[-1200:])
+            raise
+        finally:
+            CAP = None
+
+    ScenarioRunnerNoTrade.run_model_no_trade = w_run
+    try:
+        with contextlib.redirect_stdout(io.StringIO()), contextlib.redirect_stderr(io.StringIO()):
+            fe.run_scenarios_from_yaml(config, False, False, True)
+    except BaseException:
+        pass  # recorded per simulation; the simulations after a failing one do not run
+    finally:
+        ScenarioRunnerNoTrade.run_model_no_trade = orig
+        CAP = None
+    recs = []
+    for sm in sims:
+        sub = dict(cc=job["cc"], preset=sm["preset"], options=sm["options"], via="yaml", position=len(recs))
+        rec = dict(job=sub)
+        if sm["name"] not in oks:
+            rec.update(ok=False, exc="not run: an earlier simulation of the call failed", skipped=True)
+            recs.append(rec)
+            continue
+        ok, exc, tb = oks[sm["name"]]
+        rec["ok"] = ok
+        if not ok:
+            rec["exc"], rec["tb"] = exc, tb
+        recs.append(fill_rec(rec, caps[sm["name"]], bufs[sm["name"]].getvalue(), sub))
+    return recs
+
+
 def main():
     jobs = json.load(open(sys.argv[1]))
     with gzip.open(sys.argv[2], "wt") as fh:
         for job in jobs:
             try:
-                rec = run_job(job)
+                recs = run_yaml_job(job) if job.get("yaml") else [run_job(job)]
             except BaseException as e:  # recorder failure (machinery), kept apart from model failures
-                rec = dict(job=job, ok=False, recorder_error=repr(e)[:300], tb=traceback.format_exc()[-1500:])
-            fh.write(json.dumps(rec) + "\n")
+                recs = [dict(job=job, ok=False, recorder_error=repr(e)[:300], tb=traceback.format_exc()[-1500:])]
+            for rec in recs:
+                fh.write(json.dumps(rec) + "\n")
             fh.flush()
 
 
